@@ -9,6 +9,11 @@ CLAIMED = {
   note="Trusted: gowp itself, go/ssa, solvers, amd64 conversion table; callees without contract are havocked; library calls only by assumed contracts listed in the evidence; panics inside library code are outside the sweep.",
   technique="contract-based deductive verification: weakest-precondition VCs over go/ssa, safety obligations discharged by z3/cvc5",
   ref="6 C02"),
+ "C04": dict(
+  text="Proof, for every byte string including invalid UTF-8, that the lexer and the RegExp pattern scanner keep their offsets inside the source (every index and slice expression is in bounds), that every scanning loop terminates (lexicographic variant: offset, then EOF flag), that every token makes progress unless it is EOF, and that every error position handed to the error list lies inside the input; that ast.Walk visits only non-nil children and never hands a nil pointer boxed in an interface to a visitor; plus the list-based span methods. Grammar-level rejection (early errors) and spans of all 65 node kinds are not covered.",
+  note="Trusted: gowp, go/ssa, solvers; utf8.DecodeRuneInString per documentation; ID_Start subset of ID_Continue; parser invariant 'interface-typed AST fields hold proper nodes' assumed for Walk; statement/expression parser functions are outside the contracts. Three span defects are recorded as known findings.",
+  technique="contract-based deductive verification: lexer state invariant + loop invariants/variants, safety VCs over go/ssa discharged by z3/cvc5",
+  ref="6 C04"),
  "C05": dict(
   text="Proof for all 2^64 doubles and every Go numeric payload type that ToInt32/ToUint32/ToUint16/ToInteger and the saturating index conversion equal the ES5 9.4-9.7 definitions written over the IEEE-754 fields, plus the operator kernels listed in the evidence; string and object operands (strconv, scripted valueOf) are not covered.",
   note="Trusted: gowp, go/ssa, solvers, amd64 float->int table; math.* per Go documentation; (*object).DefaultValue result well-formedness is a trusted contract.",
